@@ -580,7 +580,42 @@ def k_finder(c):
     return out
 
 
-_KINDS = {'grouper': k_grouper, 'scene': k_scene, 'fixed': k_fixed, 'finder': k_finder}
+def k_finder_blend(c):
+    """A blend the finder resolves only in the residual image: with maxiters=1 there is exactly one
+    detect-and-fit pass, so IterativePSFPhotometry must equal PSFPhotometry row for row."""
+    from photutils.detection import DAOStarFinder
+    from photutils.psf import (CircularGaussianPRF, IterativePSFPhotometry, PSFPhotometry,
+                               SourceGrouper)
+    shape = tuple(c['shape'])
+    src = [tuple(s) for s in c['sources']]
+    fw = c['fwhm']
+    model = CircularGaussianPRF(fwhm=fw)
+    data = np.sum(render_each(model, src, shape), axis=0)
+    finder = DAOStarFinder(threshold=c['threshold'], fwhm=fw)
+    grp = SourceGrouper(2.0 * fw) if c['mode'] == 'all' else None
+    phot = PSFPhotometry(model, c['fit_shape'], finder=finder, aperture_radius=fw, grouper=grp)
+    res = phot(data)
+    desc = f'finder-blend case {c}'
+    if res is None:
+        return [(False, 'finder/count', f'{desc}: nothing found', None)]
+    it = IterativePSFPhotometry(model, c['fit_shape'], finder, aperture_radius=fw, maxiters=1,
+                                mode=c['mode'], grouper=grp)
+    ri = it(data)
+    eq, why = _tables_equal(res, ri)
+    npass = len(it.fit_results)
+    ok = eq and list(ri['iter_detected']) == [1] * len(res) and npass == 1
+    # the scene must be one where a second pass *would* add sources (else the case says nothing)
+    it2 = IterativePSFPhotometry(model, c['fit_shape'], finder, aperture_radius=fw, maxiters=2,
+                                 mode=c['mode'], grouper=grp)
+    r2 = it2(data)
+    discriminating = r2 is not None and (len(r2) > len(res) or len(it2.fit_results) > 1)
+    return [(ok, 'iterative-maxiters1/equals-psfphotometry',
+             f'{desc}: {why}; rows {len(ri)} vs {len(res)}, iter_detected {list(ri["iter_detected"])}, '
+             f'{npass} fit pass(es)', {'discriminating': bool(discriminating)})]
+
+
+_KINDS = {'grouper': k_grouper, 'scene': k_scene, 'fixed': k_fixed, 'finder': k_finder,
+          'finder-blend': k_finder_blend}
 
 
 def _evaluate(case):
@@ -853,6 +888,12 @@ def run(ctx):
         for ms in (None, 20.0):
             em.do({'kind': 'finder', 'shape': [29, 31], 'fwhm': 2.4, 'sources': sources, 'fit_shape': 5, 'minsep': ms},
                   'finder-driven')
+    # blends resolved only in the residual image: maxiters=1 means one pass
+    for mode in ('new', 'all'):
+        for sources, thr in (([[14.2, 13.6, 1000.0], [17.4, 14.9, 90.0]], 2.0),
+                             ([[10.3, 12.1, 600.0], [12.9, 10.4, 70.0], [24.0, 22.5, 300.0]], 1.5)):
+            em.do({'kind': 'finder-blend', 'shape': [29, 31], 'fwhm': 2.6, 'sources': sources,
+                   'fit_shape': 5, 'threshold': thr, 'mode': mode}, 'finder-driven')
     # scenes
     rng = ctx.rng
     n = 0
